@@ -427,6 +427,59 @@ def merge_steps(repo: Path):
     return params, steps
 
 
+READ_PHASE_FILES = ["myst_parser/mdit_to_docutils/base.py", "myst_parser/mdit_to_docutils/sphinx_.py", "myst_parser/mdit_to_docutils/html_to_nodes.py",
+                    "myst_parser/mdit_to_docutils/transforms.py", "myst_parser/parsers/sphinx_.py", "myst_parser/parsers/directives.py",
+                    "myst_parser/mocking.py", "myst_parser/sphinx_ext/directives.py", "myst_parser/warnings_.py"]
+
+
+def env_reads(repo: Path):
+    """every use of the Sphinx build environment in the code that runs while documents are READ (possibly by several
+    worker processes): (file, function, attribute) for `<x>.sphinx_env.<attr>`, `<x>.settings.env.<attr>`, `sphinx_env.<attr>`
+    and `self.env.<attr>` (SphinxDirective / Transform); a use of the environment object itself (passed on, compared with
+    None) is recorded with the attribute "<object>"."""
+    out = []
+
+    def is_env(e):
+        if isinstance(e, ast.Attribute) and e.attr == "sphinx_env":
+            return True
+        if isinstance(e, ast.Attribute) and e.attr == "env" and isinstance(e.value, ast.Attribute) and e.value.attr == "settings":
+            return True
+        if isinstance(e, ast.Attribute) and e.attr == "env" and isinstance(e.value, ast.Name) and e.value.id == "self":
+            return True
+        if isinstance(e, ast.Name) and e.id == "sphinx_env":
+            return True
+        return False
+
+    for rel in READ_PHASE_FILES:
+        tree = ast.parse((repo / rel).read_text())
+        stack = []
+
+        def visit(n, parent_is_attr=False):
+            if isinstance(n, (ast.FunctionDef, ast.AsyncFunctionDef, ast.ClassDef)):
+                stack.append(n.name)
+                for c in ast.iter_child_nodes(n):
+                    visit(c)
+                stack.pop()
+                return
+            if isinstance(n, ast.Attribute) and is_env(n.value):
+                row = (rel, ".".join(stack) or "<module>", n.attr)
+                if row not in out:
+                    out.append(row)
+                visit(n.value, True)
+                return
+            if is_env(n) and not parent_is_attr and isinstance(getattr(n, "ctx", None), ast.Load):
+                # the definition of the sphinx_env property / local itself is not a use
+                fn = ".".join(stack) or "<module>"
+                if not fn.endswith(".sphinx_env"):
+                    row = (rel, fn, "<object>")
+                    if row not in out:
+                        out.append(row)
+            for c in ast.iter_child_nodes(n):
+                visit(c)
+        visit(tree)
+    return out
+
+
 def scan_repo(repo: Path):
     files = sorted(p.relative_to(repo).as_posix() for p in (repo / "myst_parser").rglob("*.py"))
     writes, nondet, hashes = [], [], {}
@@ -488,7 +541,11 @@ def generate(repo: Path):
     reads, init, members = renderer_tables(repo)
     pairs, init_list, setup_list = reads_before_write(repo)
     params, steps = merge_steps(repo)
+    er = env_reads(repo)
     text = render(writes, nondet, reads, init, members) + render_src(pairs, init_list, setup_list, params, steps, members)
+    text += ("\n(* ---- Sphinx environment uses in read-phase code (round 5): file, function, attribute ---- *)\n"
+             "Definition env_reads : list (string * string * string) := [\n"
+             + ";\n".join("  (%s, %s, %s)" % (coq_str(a), coq_str(b), coq_str(c)) for a, b, c in er) + "\n].\n")
     return text, writes, nondet, (reads, init, members), hashes
 
 
